@@ -85,6 +85,7 @@ class FuncVal:
     lambda_node: Any = None
     module: Any = None
     raw: bool = False  # the undecorated function object (decorators are applied by Interp.bound_value)
+    defaults: Any = None  # nested functions / lambdas: parameter defaults evaluated when the function object was created
 
     def __repr__(self) -> str:
         return f"<fn {getattr(self.fn, 'qualname', 'lambda')}>"
